@@ -98,7 +98,7 @@ def forward_pass(g):
     for n in walk(cl["body"]):
         if n.get("k") == "mcall" and n["name"] == "next_if_eq" and from_list(n["recv"]) and is_index(n["args"][0]):
             return True
-        if n.get("k") == "binary" and n["op"] == "==":
+        if n.get("k") == "binary" and n["op"] in ("==", "!="):
             for a_, b_ in ((n["l"], n["r"]), (n["r"], n["l"])):
                 ab, ams = chain(a_)
                 bb = peel(b_)
